@@ -1,6 +1,7 @@
 import IceProofs.Sys2C20Defs
 import IceProofs.Sys2C20OutsQ
 import IceProofs.AgentC02Step
+import IceProofs.AgentAuto
 /-!
 # C20 on `Sys2` — success responses and transaction ids through every helper of `step`
 
@@ -157,6 +158,16 @@ theorem r_ctlHandleRequest (a : Agent) (now : Nat) (m : Msg) (l r : Cand) (P : N
   unfold Agent.doRestart
   ok_cases
 
+@[simp] theorem r_autoRenom (a : Agent) (now : Nat) (P : Nat → Prop) : OutsR P (a.autoRenom now).2 := by
+  refine IceProofs.Auto.autoRenom_parts (P := fun x => OutsR P x.2) ?_ a (by simp)
+  exact {
+    mark := fun _ _ _ _ h _ _ => h
+    ping := fun b _ l r h _ _ => by simp only [OutsR_append]; exact ⟨h, r_ping b now l r P⟩
+    time := fun _ _ h => h
+    count := fun _ _ h => h
+    issue := fun b _ l r nom h _ _ _ _ _ => by simp only [OutsR_append]; exact ⟨h, r_sendRequest b now l r true nom P⟩
+    log := fun _ _ _ h => h }
+
 @[simp] theorem r_contactCandidates (a : Agent) (now : Nat) (P : Nat → Prop) : OutsR P (a.contactCandidates now).2 := by
   unfold Agent.contactCandidates
   ok_cases
@@ -295,7 +306,7 @@ theorem step_renominate_ok (a : Agent) (now la ri v : Nat) (l r : Cand) (hc : a.
     (hp : (a.findPair l r).isSome = true) :
     step a (.renominate now la ri v) =
       ({ (a.sendRequest now l r true (if v > 0 then some v else none)).1 with
-          nomIssued := (a.sendRequest now l r true (if v > 0 then some v else none)).1.nomIssued ++ [v] },
+          nomIssued := (a.sendRequest now l r true (if v > 0 then some v else none)).1.nomIssued ++ [(v, l.addr, r.addr)] },
        (a.sendRequest now l r true (if v > 0 then some v else none)).2 ++ [.res "ok"]) := by
   obtain ⟨p, hp⟩ := Option.isSome_iff_exists.mp hp
   simp only [step, hc, hen, hl, hr, hp]
@@ -319,11 +330,11 @@ theorem UK.mono {g : Nat} {P : Pending → Prop} {t n n' : Nat} {p p' : List Pen
 @[simp] theorem UP_mk (g : Nat) (P : Pending → Prop) (cfg tieBreaker controlling started closed connState localUfrag localPwd
     remoteUfrag remotePwd locals remotes checklist nextPairID nextUid nextTid tag pending selected selStart nominatedPair
     lastNomination lastSeen checkingStart checkingTimeout forcePending nextTick caches rx connBytesSent connBytesRecv
-    onConnectedFired generation nomIssued) :
+    onConnectedFired generation nomIssued lastRenomTime nomCounter) :
     UP g P (Agent.mk cfg tieBreaker controlling started closed connState localUfrag localPwd remoteUfrag remotePwd
     locals remotes checklist nextPairID nextUid nextTid tag pending selected selStart nominatedPair lastNomination answeredNomination
     lastSeen checkingStart checkingTimeout forcePending nextTick caches rx connBytesSent connBytesRecv
-    onConnectedFired generation nomIssued) ↔ UK g P tag nextTid pending := Iff.rfl
+    onConnectedFired generation nomIssued lastRenomTime nomCounter) ↔ UK g P tag nextTid pending := Iff.rfl
 
 @[simp] theorem UP_eta (g : Nat) (P : Pending → Prop) (a : Agent) : UK g P a.tag a.nextTid a.pending ↔ UP g P a := Iff.rfl
 
@@ -511,6 +522,22 @@ theorem UP.tag {g : Nat} {P : Pending → Prop} {a : Agent} (h : UP g P a) : a.t
     UP g P (a.doRestart now x p).1 := by
   unfold Agent.doRestart
   ok_cases
+
+@[simp] theorem u_autoRenom (g : Nat) (P : Pending → Prop) (a : Agent) (now : Nat) (h : UP g P a) :
+    UP g P (a.autoRenom now).1 := by
+  refine IceProofs.Auto.autoRenom_parts (P := fun x => UP g P x.1) ?_ a h
+  exact {
+    mark := fun _ _ _ _ h _ _ => h
+    ping := fun b _ l r h _ _ => u_ping g P b now l r h
+    time := fun _ _ h => h
+    count := fun _ _ h => h
+    issue := fun b _ l r nom h _ _ _ _ _ => u_sendRequest g P b now l r true nom h
+    log := fun _ _ _ h => h }
+
+/-- (three nested side conditions are beyond `simp`'s discharge depth) -/
+@[simp] theorem u_valKeepAuto (g : Nat) (P : Pending → Prop) (a : Agent) (now : Nat) (h : UP g P a) :
+    UP g P (((a.validateSelected now).1.keepalive now).1.autoRenom now).1 :=
+  u_autoRenom g P _ now (u_keepalive g P _ now (u_validateSelected g P a now h))
 
 @[simp] theorem u_contactCandidates (g : Nat) (P : Pending → Prop) (a : Agent) (now : Nat) (h : UP g P a) :
     UP g P (a.contactCandidates now).1 := by
@@ -778,6 +805,37 @@ theorem pingAll_seq (a : Agent) (now : Nat) :
     Seq g n (a.pingAll now).2 := by
   subst hn hg
   exact (pingAll_seq a now).2
+
+theorem autoRenom_seq (a : Agent) (now : Nat) :
+    (a.autoRenom now).1.tag = a.tag ∧ (a.autoRenom now).1.nextTid = a.nextTid + nreq (a.autoRenom now).2 ∧
+      Seq a.tag a.nextTid (a.autoRenom now).2 := by
+  refine IceProofs.Auto.autoRenom_parts (P := fun x => x.1.tag = a.tag ∧ x.1.nextTid = a.nextTid + nreq x.2 ∧
+    Seq a.tag a.nextTid x.2) ?_ a (by simp)
+  exact {
+    mark := fun _ _ _ _ h _ _ => h
+    ping := fun b o l r h _ _ => by
+      have h1 : b.tag = a.tag := h.1
+      have h2 : b.nextTid = a.nextTid + nreq o := h.2.1
+      have h3 : Seq a.tag a.nextTid o := h.2.2
+      exact ⟨by rw [tg_ping]; exact h1, by rw [nt_ping, nreq_append, nr_ping, h2]; omega,
+        by rw [Seq_append]; exact ⟨h3, sq_ping _ _ b now l r h2 h1⟩⟩
+    time := fun _ _ h => h
+    count := fun _ _ h => h
+    issue := fun b o l r nom h _ _ _ _ _ => by
+      have h1 : b.tag = a.tag := h.1
+      have h2 : b.nextTid = a.nextTid + nreq o := h.2.1
+      have h3 : Seq a.tag a.nextTid o := h.2.2
+      exact ⟨by rw [tg_sendRequest]; exact h1, by rw [nt_sendRequest, nreq_append, nr_sendRequest, h2]; omega,
+        by rw [Seq_append]; exact ⟨h3, sq_sendRequest _ _ b now l r true nom h2 h1⟩⟩
+    log := fun _ _ _ h => h }
+
+@[simp] theorem tg_autoRenom (a : Agent) (now : Nat) : (a.autoRenom now).1.tag = a.tag := (autoRenom_seq a now).1
+@[simp] theorem nt_autoRenom (a : Agent) (now : Nat) :
+    (a.autoRenom now).1.nextTid = a.nextTid + nreq (a.autoRenom now).2 := (autoRenom_seq a now).2.1
+@[simp] theorem sq_autoRenom (g n : Nat) (a : Agent) (now : Nat) (hn : a.nextTid = n) (hg : a.tag = g) :
+    Seq g n (a.autoRenom now).2 := by
+  subst hn hg
+  exact (autoRenom_seq a now).2.2
 
 @[simp] theorem tg_contactCandidates (a : Agent) (now : Nat) : (a.contactCandidates now).1.tag = a.tag :=
   congrArg Core.tag (core_contactCandidates a now)
@@ -1090,5 +1148,500 @@ theorem sq_step (a : Agent) (e : Ev) : Seq a.tag a.nextTid (step a e).2 := by
   | renominate now la ri v => simp only [step]; tr_cases
   | restart now u p => simp only [step]; tr_cases
   | close => simp only [step]; tr_cases
+
+/-! ## Part 4 — outstanding transactions: old, or without a nomination value
+
+`NP P a`: every outstanding transaction satisfies `P` or carries no nomination value.  Every helper of `step` below the
+timer ticks keeps it: they hand `sendRequest` no value (the values come from `step` on `.renominate` and from
+`Agent.autoIssue`, the automatic check inside `contactCandidates`). -/
+
+def NP (P : Pending → Prop) (a : Agent) : Prop := ∀ pd ∈ a.pending, P pd ∨ pd.nom = none
+
+theorem NP.mono {P : Pending → Prop} {a b : Agent} (h : NP P a) (hp : ∀ pd ∈ b.pending, pd ∈ a.pending) : NP P b :=
+  fun pd hpd => h pd (hp pd hpd)
+
+@[simp] theorem NP_mk (P : Pending → Prop) (cfg tieBreaker controlling started closed connState localUfrag localPwd
+    remoteUfrag remotePwd locals remotes checklist nextPairID nextUid nextTid tag pending selected selStart nominatedPair
+    lastNomination lastSeen checkingStart checkingTimeout forcePending nextTick caches rx connBytesSent connBytesRecv
+    onConnectedFired generation nomIssued lastRenomTime nomCounter) :
+    NP P (Agent.mk cfg tieBreaker controlling started closed connState localUfrag localPwd remoteUfrag remotePwd
+    locals remotes checklist nextPairID nextUid nextTid tag pending selected selStart nominatedPair lastNomination answeredNomination
+    lastSeen checkingStart checkingTimeout forcePending nextTick caches rx connBytesSent connBytesRecv
+    onConnectedFired generation nomIssued lastRenomTime nomCounter) ↔ ∀ pd ∈ pending, P pd ∨ pd.nom = none := Iff.rfl
+
+@[simp] theorem NP_eta (P : Pending → Prop) (a : Agent) : (∀ pd ∈ a.pending, P pd ∨ pd.nom = none) ↔ NP P a := Iff.rfl
+
+@[simp] theorem np_modPair (P : Pending → Prop) (a : Agent) (id : Nat) (f : Pair → Pair) :
+    NP P (a.modPair id f) ↔ NP P a := Iff.rfl
+@[simp] theorem np_seenLocalSent (P : Pending → Prop) (a : Agent) (x n : Nat) :
+    NP P (a.seenLocalSent x n) ↔ NP P a := Iff.rfl
+@[simp] theorem np_seenRemoteRecv (P : Pending → Prop) (a : Agent) (x n : Nat) :
+    NP P (a.seenRemoteRecv x n) ↔ NP P a := Iff.rfl
+@[simp] theorem np_requestCheck (P : Pending → Prop) (a : Agent) : NP P a.requestCheck ↔ NP P a := Iff.rfl
+@[simp] theorem np_addPair (P : Pending → Prop) (a : Agent) (l r : Cand) :
+    NP P (a.addPair l r).1 ↔ NP P a := Iff.rfl
+@[simp] theorem np_resetSelector (P : Pending → Prop) (a : Agent) (n : Nat) :
+    NP P (a.resetSelector n) ↔ NP P a := Iff.rfl
+
+@[simp] theorem np_wipe (P : Pending → Prop) (a : Agent) (h : NP P a) : NP P a.wipe :=
+  NP.mono h (fun _ hp => by cases hp)
+
+@[simp] theorem np_invalidatePending (P : Pending → Prop) (a : Agent) (now : Nat) (h : NP P a) :
+    NP P (a.invalidatePending now) :=
+  NP.mono h (fun _ hp => mem_invalidatePending hp)
+
+@[simp] theorem np_setConnState (P : Pending → Prop) (a : Agent) (s : ConnState) (h : NP P a) :
+    NP P (a.setConnState s).1 := by
+  unfold Agent.setConnState
+  ok_cases
+
+@[simp] theorem np_select (P : Pending → Prop) (a : Agent) (id : Nat) (h : NP P a) : NP P (a.select id).1 := by
+  unfold Agent.select
+  ok_cases
+
+@[simp] theorem np_sendRequest (P : Pending → Prop) (a : Agent) (now : Nat) (l r : Cand) (u : Bool)
+    (h : NP P a) : NP P (a.sendRequest now l r u none).1 := by
+  unfold NP
+  rw [sendRequest_pending]
+  intro pd hpd
+  rcases List.mem_append.mp hpd with hpd | hpd
+  · exact h pd (mem_invalidatePending hpd)
+  · right
+    rw [List.mem_singleton.mp hpd]
+
+@[simp] theorem np_ping (P : Pending → Prop) (a : Agent) (now : Nat) (l r : Cand) (h : NP P a) :
+    NP P (a.ping now l r).1 := np_sendRequest P a now l r false h
+
+@[simp] theorem np_sendSuccess (P : Pending → Prop) (a : Agent) (now : Nat) (m : Msg) (l r : Cand) (h : NP P a) :
+    NP P (a.sendSuccess now m l r).1 := by
+  unfold Agent.sendSuccess
+  ok_cases
+
+@[simp] theorem np_nominate (P : Pending → Prop) (a : Agent) (now : Nat) (p : Pair) (h : NP P a) :
+    NP P (a.nominate now p).1 := by
+  unfold Agent.nominate
+  ok_cases
+
+@[simp] theorem np_keepalive (P : Pending → Prop) (a : Agent) (now : Nat) (h : NP P a) :
+    NP P (a.keepalive now).1 := by
+  unfold Agent.keepalive
+  ok_cases
+
+@[simp] theorem np_validateSelected (P : Pending → Prop) (a : Agent) (now : Nat) (h : NP P a) :
+    NP P (a.validateSelected now).1 := by
+  unfold Agent.validateSelected
+  ok_cases
+
+@[simp] theorem np_pingAll (P : Pending → Prop) (a : Agent) (now : Nat) (h : NP P a) :
+    NP P (a.pingAll now).1 := by
+  unfold Agent.pingAll
+  refine IceProofs.List.foldl_inv (fun acc : Agent × List Out => NP P acc.1) _ _ _ h ?_
+  intro acc id h
+  obtain ⟨b, o⟩ := acc
+  simp only at h ⊢
+  ok_cases
+
+@[simp] theorem np_replaceRemoteInPairs (P : Pending → Prop) (a : Agent) (old c : Cand) (h : NP P a) :
+    NP P (a.replaceRemoteInPairs old c).1 := by
+  unfold Agent.replaceRemoteInPairs
+  refine IceProofs.List.foldl_inv (fun acc : Agent × List Out => NP P acc.1) _ _ _ h ?_
+  intro acc id h
+  obtain ⟨b, o⟩ := acc
+  simp only at h ⊢
+  ok_cases
+
+@[simp] theorem np_addRemoteCandidate (P : Pending → Prop) (a : Agent) (c : Cand) (h : NP P a) :
+    NP P (a.addRemoteCandidate c).1 := by
+  unfold Agent.addRemoteCandidate
+  split
+  · exact h
+  split
+  · exact h
+  simp only [np_requestCheck]
+  refine IceProofs.List.foldl_inv (fun b : Agent => NP P b) _ _ _ ?_ ?_
+  · simp only [NP_mk, NP_eta]
+    refine IceProofs.List.foldl_inv (fun acc : Agent × List Out => NP P acc.1) _ _ _ ?_ ?_
+    · simpa using h
+    · intro acc old h
+      simp [h]
+  · intro b l h
+    split <;> simp [h]
+
+@[simp] theorem np_addLocalCandidate (P : Pending → Prop) (a : Agent) (c : Cand) (h : NP P a) :
+    NP P (a.addLocalCandidate c).1 := by
+  unfold Agent.addLocalCandidate
+  split
+  · exact h
+  split
+  · exact h
+  simp only [np_requestCheck]
+  refine IceProofs.List.foldl_inv (fun b : Agent => NP P b) _ _ _ ?_ ?_
+  · simpa using h
+  · intro b l h
+    simp [h]
+
+@[simp] theorem np_takePending (P : Pending → Prop) (a : Agent) (now tid : Nat) (h : NP P a) :
+    NP P (a.takePending now tid).1 := by
+  have h1 := np_invalidatePending P a now h
+  unfold Agent.takePending
+  simp only []
+  split
+  · exact NP.mono h1 (fun _ hp => (List.mem_filter.mp hp).1)
+  · exact h1
+
+@[simp] theorem np_handleSuccess (P : Pending → Prop) (a : Agent) (now : Nat) (m : Msg) (l r : Cand) (src : Nat)
+    (h : NP P a) : NP P (a.handleSuccess now m l r src).1 := by
+  unfold Agent.handleSuccess
+  ok_cases
+
+@[simp] theorem np_cldNominate (P : Pending → Prop) (a : Agent) (m : Msg) (id : Nat) (h : NP P a) :
+    NP P (cldNominate a m id).1 := by
+  unfold cldNominate
+  ok_cases
+
+@[simp] theorem np_cldProceed (P : Pending → Prop) (a : Agent) (now : Nat) (m : Msg) (l r : Cand) (id : Nat)
+    (h : NP P a) : NP P (cldProceed a now m l r id).1 := by
+  unfold cldProceed
+  ok_cases
+  exact np_ping P _ now l r (np_sendSuccess P _ now m l r (np_cldNominate P a m id h))
+
+@[simp] theorem np_ensurePair (P : Pending → Prop) (a : Agent) (l r : Cand) :
+    NP P (ensurePair a l r).1 ↔ NP P a := by
+  unfold ensurePair
+  split <;> simp
+
+@[simp] theorem np_cldHandleRequest (P : Pending → Prop) (a : Agent) (now : Nat) (m : Msg) (l r : Cand)
+    (h : NP P a) : NP P (a.cldHandleRequest now m l r).1 := by
+  rw [cldHandleRequest_nf]
+  simp only []
+  split
+  · simp [h]
+  · exact np_cldProceed _ _ _ _ _ _ _ (by simpa using h)
+
+@[simp] theorem np_ctlHandleRequest (P : Pending → Prop) (a : Agent) (now : Nat) (m : Msg) (l r : Cand)
+    (h : NP P a) : NP P (a.ctlHandleRequest now m l r).1 := by
+  unfold Agent.ctlHandleRequest
+  ok_cases
+
+@[simp] theorem np_handleInbound (P : Pending → Prop) (a : Agent) (now : Nat) (l : Cand) (src : Nat) (m : Msg)
+    (h : NP P a) : NP P (a.handleInbound now l src m).1 := by
+  unfold Agent.handleInbound
+  ok_cases
+
+@[simp] theorem np_writeVia (P : Pending → Prop) (a : Agent) (now : Nat) (p : Pair) (len : Nat) (h : NP P a) :
+    NP P (a.writeVia now p len).1 := by
+  unfold Agent.writeVia
+  ok_cases
+
+@[simp] theorem np_write (P : Pending → Prop) (a : Agent) (now len : Nat) (s : Bool) (h : NP P a) :
+    NP P (a.write now len s).1 := by
+  unfold Agent.write
+  ok_cases
+
+@[simp] theorem np_writeToPair (P : Pending → Prop) (a : Agent) (now id len : Nat) (s : Bool) (h : NP P a) :
+    NP P (a.writeToPair now id len s).1 := by
+  unfold Agent.writeToPair
+  ok_cases
+
+@[simp] theorem np_inboundData (P : Pending → Prop) (a : Agent) (now : Nat) (l : Cand) (src len : Nat)
+    (h : NP P a) : NP P (a.inboundData now l src len).1 := by
+  unfold Agent.inboundData Agent.enqueue
+  ok_cases
+
+@[simp] theorem np_doRestart (P : Pending → Prop) (a : Agent) (now : Nat) (x p : String) (h : NP P a) :
+    NP P (a.doRestart now x p).1 := by
+  unfold Agent.doRestart
+  ok_cases
+
+
+/-! ## Part 5 — a valued transaction and its request
+
+`VL a r`: every transaction outstanding after `r` that was not outstanding in `a` carries no nomination value, or its
+request is among the outputs of `r`: from its source to its destination, with its id and its value.  (`sendRequest` adds the
+transaction and emits the request in one go; the value is handed to it only by `step` on `.renominate` and by
+`Agent.autoIssue`.) -/
+
+def VL (a : Agent) (r : Agent × List Out) : Prop :=
+  ∀ pd ∈ r.1.pending, pd ∈ a.pending ∨ pd.nom = none ∨
+    ∃ m, Out.dgram pd.src pd.dest m ∈ r.2 ∧ m.cls = 0 ∧ m.tid = pd.tid ∧ m.nom = pd.nom
+
+theorem VL.refl (a : Agent) : VL a (a, []) := fun _ h => Or.inl h
+
+theorem VL.same (a : Agent) (o : List Out) : VL a (a, o) := fun _ h => Or.inl h
+
+theorem VL.of_np {a : Agent} {r : Agent × List Out} (h : NP (fun pd => pd ∈ a.pending) r.1) : VL a r := by
+  intro pd hpd
+  rcases h pd hpd with h1 | h1
+  · exact Or.inl h1
+  · exact Or.inr (Or.inl h1)
+
+theorem np_base (a : Agent) : NP (fun pd => pd ∈ a.pending) a := fun _ h => Or.inl h
+
+theorem VL.seq {a : Agent} {r1 r2 : Agent × List Out} (h1 : VL a r1) (h2 : VL r1.1 r2) : VL a (r2.1, r1.2 ++ r2.2) := by
+  intro pd hpd
+  rcases h2 pd hpd with h | h | ⟨m, hm, h⟩
+  · rcases h1 pd h with h | h | ⟨m, hm, h⟩
+    · exact Or.inl h
+    · exact Or.inr (Or.inl h)
+    · exact Or.inr (Or.inr ⟨m, List.mem_append_left _ hm, h⟩)
+  · exact Or.inr (Or.inl h)
+  · exact Or.inr (Or.inr ⟨m, List.mem_append_right _ hm, h⟩)
+
+/-- followed by an update that adds no transaction -/
+theorem VL.andThen {a b : Agent} {r : Agent × List Out} (h : VL a r) (hp : ∀ pd ∈ b.pending, pd ∈ r.1.pending) :
+    VL a (b, r.2) := fun pd hpd => h pd (hp pd hpd)
+
+/-- preceded by an update that adds no transaction -/
+theorem VL.after {a b : Agent} {r : Agent × List Out} (hp : ∀ pd ∈ b.pending, pd ∈ a.pending) (h : VL b r) : VL a r := by
+  intro pd hpd
+  rcases h pd hpd with h | h
+  · exact Or.inl (hp pd h)
+  · exact Or.inr h
+
+/-- one request, whatever it carries -/
+theorem vl_sendRequest (b : Agent) (now : Nat) (l r : Cand) (uc : Bool) (nom : Option Nat) :
+    VL b (b.sendRequest now l r uc nom) := by
+  intro pd hpd
+  rw [sendRequest_pending] at hpd
+  rcases List.mem_append.mp hpd with hpd | hpd
+  · exact Or.inl (mem_invalidatePending hpd)
+  · refine Or.inr (Or.inr ?_)
+    rw [List.mem_singleton.mp hpd, sendRequest_out]
+    exact ⟨_, List.mem_singleton.mpr rfl, rfl, rfl, rfl⟩
+
+theorem vl_autoRenom (a : Agent) (now : Nat) : VL a (a.autoRenom now) := by
+  refine IceProofs.Auto.autoRenom_closed (P := fun x => VL a x) ?_ a (VL.refl a)
+  exact {
+    mark := fun b o _ _ h _ _ => VL.andThen (r := (b, o)) h (fun _ hp => hp)
+    ping := fun b o l r h _ _ => VL.seq (r1 := (b, o)) h (vl_sendRequest b now l r false none)
+    time := fun b o h => VL.andThen (r := (b, o)) h (fun _ hp => hp)
+    count := fun b o h => VL.andThen (r := (b, o)) h (fun _ hp => hp)
+    issue := fun b o l r v h _ _ _ _ _ =>
+      VL.andThen (r := ((b.sendRequest now l r true (if v > 0 then some v else none)).1,
+          o ++ (b.sendRequest now l r true (if v > 0 then some v else none)).2))
+        (VL.seq (r1 := (b, o)) h (vl_sendRequest b now l r true _)) (fun _ hp => hp) }
+
+theorem vl_validateSelected (a : Agent) (now : Nat) : VL a ((a.validateSelected now).1, (a.validateSelected now).2.1) :=
+  VL.of_np (np_validateSelected _ a now (np_base a))
+
+theorem vl_valKeep (a : Agent) (now : Nat) : VL a (C03.valKeep a now) := by
+  unfold C03.valKeep
+  have h1 := vl_validateSelected a now
+  generalize a.validateSelected now = r at h1 ⊢
+  obtain ⟨a1, o1, ok⟩ := r
+  simp only [] at h1 ⊢
+  split
+  · have h2 : VL a1 (a1.keepalive now) := VL.of_np (np_keepalive _ a1 now (np_base a1))
+    generalize a1.keepalive now = r2 at h2 ⊢
+    obtain ⟨a2, o2⟩ := r2
+    exact VL.seq (r1 := (a1, o1)) h1 h2
+  · exact h1
+
+theorem vl_valKeepAuto (a : Agent) (now : Nat) : VL a (C03.valKeepAuto a now) := by
+  unfold C03.valKeepAuto
+  have h1 := vl_validateSelected a now
+  generalize a.validateSelected now = r at h1 ⊢
+  obtain ⟨a1, o1, ok⟩ := r
+  simp only [] at h1 ⊢
+  split
+  · have h2 : VL a1 (a1.keepalive now) := VL.of_np (np_keepalive _ a1 now (np_base a1))
+    generalize a1.keepalive now = r2 at h2 ⊢
+    obtain ⟨a2, o2⟩ := r2
+    have h3 := vl_autoRenom a2 now
+    generalize a2.autoRenom now = r3 at h3 ⊢
+    obtain ⟨a3, o3⟩ := r3
+    exact VL.seq (r1 := (a2, o1 ++ o2)) (VL.seq (r1 := (a1, o1)) h1 h2) h3
+  · exact h1
+
+theorem vl_contactCandidates (a : Agent) (now : Nat) : VL a (a.contactCandidates now) := by
+  unfold Agent.contactCandidates
+  split
+  · split
+    · exact vl_valKeepAuto a now
+    · split
+      · exact VL.of_np (np_nominate _ a now _ (np_base a))
+      · split
+        · exact VL.refl _
+        · split
+          · split
+            · split
+              · exact VL.of_np (np_nominate _ _ now _ (np_base a))
+              · exact VL.of_np (np_pingAll _ a now (np_base a))
+            · exact VL.of_np (np_pingAll _ a now (np_base a))
+          · exact VL.of_np (np_pingAll _ a now (np_base a))
+  · split
+    · exact vl_validateSelected a now
+    · split
+      · exact vl_valKeep a now
+      · exact VL.of_np (np_pingAll _ a now (np_base a))
+
+theorem chk_pending (a : Agent) (now : Nat) : (C03.chk a now).pending = a.pending := by
+  unfold C03.chk
+  split <;> rfl
+
+theorem vl_contact (a : Agent) (now : Nat) : VL a (a.contact now) := by
+  rw [C03.contact_eq]
+  split
+  · exact VL.refl _
+  · split
+    · exact VL.same a _
+    · split
+      · exact VL.andThen (r := (C03.chk a now).setConnState .failed)
+          (VL.after (fun _ hp => by rw [chk_pending] at hp; exact hp)
+            (VL.of_np (np_setConnState _ _ _ (np_base _)))) (fun _ hp => hp)
+      · exact VL.andThen (r := (C03.chk a now).contactCandidates now)
+          (VL.after (fun _ hp => by rw [chk_pending] at hp; exact hp) (vl_contactCandidates _ now)) (fun _ hp => hp)
+    · exact VL.andThen (r := a.contactCandidates now) (vl_contactCandidates a now) (fun _ hp => hp)
+
+theorem vl_runForced (a : Agent) (now : Nat) : VL a (a.runForced now) := by
+  unfold Agent.runForced
+  split
+  · have h := vl_contact { a with forcePending := false } now
+    generalize Agent.contact { a with forcePending := false } now = r at h ⊢
+    obtain ⟨a1, o1⟩ := r
+    exact VL.andThen (r := (a1, o1)) (VL.after (a := a) (fun _ hp => hp) h) (fun _ hp => hp)
+  · exact VL.refl _
+
+theorem vl_runTimers (a : Agent) (now fuel : Nat) : VL a (a.runTimers now fuel) := by
+  induction fuel generalizing a with
+  | zero => exact VL.refl _
+  | succ n ih =>
+    unfold Agent.runTimers
+    split
+    · rename_i t _
+      split
+      · have h1 := vl_contact a t
+        generalize a.contact t = r at h1 ⊢
+        obtain ⟨a1, o1⟩ := r
+        simp only [] at h1 ⊢
+        have h2 := ih { a1 with nextTick := some (t + a1.interval) }
+        generalize Agent.runTimers { a1 with nextTick := some (t + a1.interval) } now n = r2 at h2 ⊢
+        obtain ⟨a2, o2⟩ := r2
+        exact VL.seq (r1 := ({ a1 with nextTick := some (t + a1.interval) }, o1))
+          (VL.andThen (r := (a1, o1)) h1 (fun _ hp => hp)) h2
+      · exact VL.refl _
+    · exact VL.refl _
+
+/-- **Every step**: a transaction with a nomination value that the step adds has its request among the step's outputs. -/
+theorem step_valued_link (a : Agent) (e : Ev) : VL a (step a e) := by
+  cases e with
+  | addLocal now c =>
+    simp only [step]
+    have h1 : VL a (a.addLocalCandidate c) := VL.of_np (np_addLocalCandidate _ a c (np_base a))
+    generalize a.addLocalCandidate c = r1 at h1 ⊢
+    obtain ⟨a1, o1⟩ := r1
+    have h2 := vl_runForced a1 now
+    generalize a1.runForced now = r2 at h2 ⊢
+    obtain ⟨a2, o2⟩ := r2
+    exact VL.seq (r1 := (a1, o1)) h1 h2
+  | addRemote now c =>
+    simp only [step]
+    split
+    · exact VL.same a _
+    · split
+      · exact VL.refl _
+      · have h1 : VL a ((a.addRemoteCandidate c).1, (a.addRemoteCandidate c).2.1) :=
+          VL.of_np (np_addRemoteCandidate _ a c (np_base a))
+        generalize a.addRemoteCandidate c = r1 at h1 ⊢
+        obtain ⟨a1, o1, x⟩ := r1
+        have h2 := vl_runForced a1 now
+        generalize a1.runForced now = r2 at h2 ⊢
+        obtain ⟨a2, o2⟩ := r2
+        exact VL.seq (r1 := (a1, o1)) h1 h2
+  | start now ctl ru rp =>
+    rw [C03.step_start_eq]
+    split
+    · exact VL.same a _
+    · split
+      · exact VL.same a _
+      · split
+        · exact VL.same a _
+        · split
+          · exact VL.same a _
+          · unfold C03.startCore
+            have h1 : VL a (C03.startA1 ((C03.startA0 a now ctl ru rp).setConnState .checking).1,
+                ((C03.startA0 a now ctl ru rp).setConnState .checking).2 ++ [.res "ok"]) :=
+              VL.of_np (by
+                show NP _ ((C03.startA0 a now ctl ru rp).setConnState .checking).1
+                exact np_setConnState _ _ _ (np_base a))
+            have h2 := vl_runForced (C03.startA1 ((C03.startA0 a now ctl ru rp).setConnState .checking).1) now
+            exact VL.seq h1 h2
+  | setRemoteCreds ru rp => exact VL.of_np (by simp only [step]; have := np_base a; ok_cases)
+  | advance now => exact vl_runTimers a now 100000
+  | inbound now la src m =>
+    simp only [step]
+    split
+    · exact VL.refl _
+    · split
+      · exact VL.refl _
+      · rename_i l _
+        have h1 : VL a (a.handleInbound now l src m) := VL.of_np (np_handleInbound _ a now l src m (np_base a))
+        generalize a.handleInbound now l src m = r1 at h1 ⊢
+        obtain ⟨a1, o1⟩ := r1
+        have h2 := vl_runForced a1 now
+        generalize a1.runForced now = r2 at h2 ⊢
+        obtain ⟨a2, o2⟩ := r2
+        exact VL.seq (r1 := (a1, o1)) h1 h2
+  | inboundData now la src len s => exact VL.of_np (by simp only [step]; have := np_base a; ok_cases)
+  | write now len s => exact VL.of_np (by have := np_base a; simp [step, this])
+  | writeToPair now id len s => exact VL.of_np (by have := np_base a; simp [step, this])
+  | read cap => exact VL.of_np (by simp only [step]; have := np_base a; ok_cases)
+  | renominate now la ri v =>
+    by_cases hc : a.controlling = true
+    · by_cases he : a.cfg.enableRenomination = true
+      · cases hl : a.localByAddr la with
+        | none => simp only [step, hc, he, hl, Bool.not_true, Bool.false_eq_true, if_false]; exact VL.same a _
+        | some l =>
+          cases hr : a.remotes[ri]? with
+          | none => simp only [step, hc, he, hl, hr, Bool.not_true, Bool.false_eq_true, if_false]; exact VL.same a _
+          | some r =>
+            cases hp : a.findPair l r with
+            | none => simp only [step, hc, he, hl, hr, hp, Bool.not_true, Bool.false_eq_true, if_false]; exact VL.same a _
+            | some p =>
+              rw [step_renominate_ok a now la ri v l r hc he hl hr (by rw [hp]; rfl)]
+              have h := vl_sendRequest a now l r true (if v > 0 then some v else none)
+              intro pd hpd
+              rcases h pd hpd with h | h | ⟨m, hm, h⟩
+              · exact Or.inl h
+              · exact Or.inr (Or.inl h)
+              · exact Or.inr (Or.inr ⟨m, List.mem_append_left _ hm, h⟩)
+      · have he' : a.cfg.enableRenomination = false := by simpa using he
+        simp only [step, hc, he', Bool.not_true, Bool.not_false, Bool.false_eq_true, if_false, if_true]; exact VL.same a _
+    · have hc' : a.controlling = false := by simpa using hc
+      simp only [step, hc', Bool.not_false, if_true]; exact VL.same a _
+  | restart now u p => exact VL.of_np (by simp only [step]; have := np_base a; ok_cases)
+  | close => exact VL.of_np (by simp only [step]; have := np_base a; ok_cases)
+
+/-- in a sequence numbered consecutively two requests with the same id are the same message -/
+theorem Seq.tid_inj {g n : Nat} {o : List Out} (h : Seq g n o) {f t f' t' : Nat} {m m' : Msg}
+    (hm : Out.dgram f t m ∈ o) (hm' : Out.dgram f' t' m' ∈ o) (hc : m.cls = 0) (hc' : m'.cls = 0)
+    (ht : m.tid = m'.tid) : m = m' := by
+  induction o generalizing n with
+  | nil => cases hm
+  | cons x o ih =>
+    cases hr : rq x with
+    | none =>
+      have hx : ∀ {f t : Nat} {m : Msg}, Out.dgram f t m ∈ x :: o → m.cls = 0 → Out.dgram f t m ∈ o := by
+        intro f t m hmem hcls
+        rcases List.mem_cons.mp hmem with e | e
+        · subst e
+          simp [rq, hcls] at hr
+        · exact e
+      simp only [Seq, hr] at h
+      exact ih h (hx hm hc) (hx hm' hc')
+    | some tx =>
+      simp only [Seq, hr] at h
+      obtain ⟨h0, h1⟩ := h
+      rcases List.mem_cons.mp hm with e | e <;> rcases List.mem_cons.mp hm' with e' | e'
+      · rw [← e] at e'; cases e'; rfl
+      · subst e
+        obtain ⟨k, hk, hk1, _⟩ := h1.mem e' hc'
+        have : tx = m.tid := by simp [rq, hc] at hr; exact hr.symm
+        omega
+      · subst e'
+        obtain ⟨k, hk, hk1, _⟩ := h1.mem e hc
+        have : tx = m'.tid := by simp [rq, hc'] at hr; exact hr.symm
+        omega
+      · exact ih h1 e e'
 
 end IceProofs.C20S
